@@ -116,6 +116,17 @@ def generate(ctx, batch, idx):
                 h["font"] = r.choice(vs)
                 h["original"] = False
                 ops.insert(r.randrange(len(ops) + 1), ["vmtx", {"k": r.randrange(1 << 16), "seed": 0}])
+        elif r.random() < 0.1:
+            # outlines off the integer grid in a CFF font, everything recalculated: boxes and extents are rounded
+            # outwards wherever they are stored
+            cs = sorted(v for v in corpus.keys_by_tag().get("CFF ", []) if corpus.gen2(v) is not None)
+            if cs:
+                h["font"] = r.choice(cs)
+                h["original"] = False
+                h["full"] = True
+                h["cfg"]["recalcBBoxes"] = True
+                for _ in range(r.choice([1, 2, 3])):
+                    ops.insert(r.randrange(len(ops) + 1), ["cffshift", {"k": 2 * r.randrange(1 << 15), "seed": 0}])
         if r.random() < 0.2:
             # a file that has been through WOFF2 before carries head.flags bit 11
             ops.append(["headflags", {"k": 0, "seed": 0}])
